@@ -333,15 +333,22 @@ def run(ck):
                           '%d accepting exit(s) of the arm, each after the visitor call' % len(exits) if not bad else 'the arm can yield Some(..) without calling %s: blocks stay open' % c['m'], fn=fn['path'])
                 if 'break_target' in spec:
                     want = got_path_mark = next((ms for p, ms in got.items() if p == spec['break_target']), None)
-                    bl = [b for h, b in fl.bs.items() if b['bind']['name'] == 'break_label' and b['kind'] == 'let']
+                    # the value handed to walk_stmt_nodes in the position of its Option<Label> parameter
+                    wsn = L.fn('typedexpr::walk_stmt_nodes')
+                    lidx = next((i for i, t in enumerate(wsn['inputs']) if 'Option<' in t and '::Label' in t), None) if wsn else None
+                    wcalls = [x for x in H.calls_in(fn['body']) if H.is_call_to(x, 'walk_stmt_nodes') and any(x2 is x for x2 in walk(next((a for a in H.ancestors(fn, c) if a.get('k') == 'Arm'), {'k': 'x'})))]
+                    bl = []
+                    for x in wcalls:
+                        if lidx is not None and lidx < len(x['args']):
+                            b = fl.bs.get((H.root_local(x['args'][lidx]) or {}).get('hid'))
+                            if b is not None and b['kind'] == 'let':
+                                bl.append(b)
                     okb = False
                     if bl and want:
                         v = fl.val(bl[-1]['node']['init'])
                         okb = {x for x in LF.atoms(v)} == {'mark@%d' % want[0]}
                         # and it is what the body walk receives
-                        clo = [x for x in H.calls_in(fn['body']) if H.is_call_to(x, 'walk_stmt_nodes') and any(
-                            (H.root_local(a) or {}).get('hid') == bl[-1]['bind']['hid'] for a in x['args'])]
-                        okb = okb and bool(clo)
+                        okb = okb and len(bl) == len(wcalls)
                     ck.ob('R6.1', 'break-target|%s' % c['m'], okb, L.loc(bl[-1]['node']) if bl else L.loc(c),
                           'case bodies are walked with break target = the mark passed as %s' % spec['break_target'], fn=fn['path'])
         for i, m in enumerate(mcs):
@@ -359,7 +366,7 @@ def run(ck):
             if c.get('m') == 'visit_break_statement':
                 fl = LF.Flow(fn, wrappers=())
                 ats = LF.atoms(fl.val(c['args'][0]))
-                pidx = next((b['index'] for b in fl.bs.values() if b['kind'] == 'param' and b['bind']['name'] == 'break_label'), None)
+                pidx = next((i for i, t in enumerate(fn['inputs']) if 'Option<' in t and '::Label' in t), None)
                 ck.ob('R6.1', 'break-uses-enclosing-target', pidx is not None and ats == {'P%d[*]' % pidx}, L.loc(c),
                       'visit_break_statement receives the enclosing break target (%s)' % sorted(ats), fn=fn['path'])
 
@@ -589,6 +596,44 @@ def run(ck):
             for arm in m['arms']:
                 texts = [H.fmt_text(s) for s in sites if any(x is s['node'] for x in walk(arm['body']))] if sites and 'node' in sites[0] else []
                 rows[pp(arm['pat'], maxlen=60)] = texts
+        # every terminator arm ends, on every path through it, with a printed control transfer
+        site_of = {id(s2['node']): s2 for s2 in sites}
+
+        def prints_in(e):
+            return [site_of[id(x)] for x in walk(e) if id(x) in site_of]
+
+        def tails(e):
+            """templates that can be the LAST line printed on some path through e; None stands for a path printing nothing."""
+            k = e.get('k')
+            if k == 'Block':
+                seq = [st.get('e') or st.get('init') or st for st in e.get('stmts', [])] + ([e['e']] if 'e' in e else [])
+                out = {None}
+                for part in seq:
+                    t = tails(part)
+                    out = (t - {None}) | (out if None in t else set())
+                return out
+            if k == 'If':
+                t = tails(e['then']) | (tails(e['els']) if 'els' in e else {None})
+                return t
+            if k == 'Match':
+                t = set()
+                for a in e['arms']:
+                    t |= tails(a['body'])
+                return t
+            if k in ('Try', 'Semi', 'Expr', 'AddrOf'):
+                return tails(e['e'])
+            ps = prints_in(e)
+            if not ps:
+                return {None}
+            return {H.fmt_text(sorted(ps, key=lambda s2: (s2['node']['sp'][1], s2['node']['sp'][2]))[-1])}
+        if m is not None:
+            for arm in m['arms']:
+                ts = tails(arm['body'])
+                good = all(t is not None and re.match(r'^(goto \{\d\};|return( \{\d\})?;|Q_UNREACHABLE\(\);)', t) for t in ts)
+                ck.ob('R6.6', 'block-ends-in-control-transfer|%s' % pp(arm['pat'], maxlen=50), good and bool(ts), L.loc(arm),
+                      'last line printed on every path: %s' % sorted(t.strip() for t in ts if t) if good else
+                      'on some path through this arm the last thing printed is %s: the C++ block runs on into the next label' % sorted((t.strip() if t else '<nothing>') for t in ts), fn=wbb['path'])
+            ck.floor('R6.6', len(m['arms']), 5, 'terminator arms in write_basic_block')
         gotos = [c for c in H.calls_in(wbb['body']) if c.get('m') == 'format_basic_block_ref']
         ck.ob('R6.6', 'gotos-use-label-formatter', len(gotos) == 3, L.loc(wbb['body']), '%d jump targets printed through format_basic_block_ref (Br: 1, BrCond: 2)' % len(gotos))
     # value functions only after the return type check: C05's obligations, run on the same facts
